@@ -76,7 +76,7 @@ class ObsMixin(object):
         self.simulation.obslog.append(entry)
 
     def attach_server(self, server, individual):
-        cands = [(i.id_number, i.priority_class, i) for i in customers(self) if not live(self, i)]
+        cands = [(i.id_number, i.priority_class, i, _interrupted_waiting(self, i)) for i in customers(self) if not live(self, i)]
         restart = individual in self.interrupted_individuals
         super().attach_server(server, individual)
         self._log("attach", self.now, self.id_number, individual, server, cands, restart)
@@ -131,6 +131,17 @@ class ObsMixin(object):
         was_blocked = bool(individual.is_blocked)
         super().interrupt_service(individual)
         self._log("interrupt", self.now, self.id_number, individual, was_blocked)
+
+
+def _interrupted_waiting(node, ind):
+    """Record-based: the last record of the customer's current visit is a non-moving interruption at this node."""
+    if not ind.data_records:
+        return False
+    r = ind.data_records[-1]
+    if r.record_type != "interrupted service" or r.node != node.id_number or r.arrival_date != ind.arrival_date:
+        return False
+    d = r.destination
+    return d != d       # NaN destination = not rerouted
 
 
 def _copy_route(ind):
